@@ -86,6 +86,13 @@ func genC06v4(o *Out, rng *rand.Rand, tier string) {
 			}
 		}
 	}
+	// packets as the protocol means them (message types, boot options, structured values, empty options): received,
+	// forwarded, received again
+	meaningfulPackets(rng, func(p *dhcpv4.DHCPv4) {
+		if w, perr := enc4(p); perr == nil {
+			fix4(o, w, "meaningful-packets")
+		}
+	})
 	for i := 0; i < n; i++ {
 		switch i % 4 {
 		case 0: // unsorted / split / padded areas, garbage after End, odd hlen, names without NUL
